@@ -113,7 +113,7 @@ axiom('bconcat.cnt', forall([m, n_], bcnt(bconcat(m, n_)) == bcnt(m) + bcnt(n_),
 axiom('bconcat.at', forall([m, n_, i], bat(bconcat(m, n_), i) == z3.If(i < blen(m), bat(m, i), bat(n_, i - blen(m))),
                            [bat(bconcat(m, n_), i)]), ['bconcat'])
 axiom('bnot', forall([m], z3.And(blen(bnot(m)) == blen(m), bcnt(bnot(m)) == blen(m) - bcnt(m),
-                                 forall([i], bat(bnot(m), i) == z3.Not(bat(m, i)), [bat(bnot(m), i)])), [bnot(m)]),
+                                 forall([i], z3.Implies(z3.And(0 <= i, i < blen(m)), bat(bnot(m), i) == z3.Not(bat(m, i))), [bat(bnot(m), i)])), [bnot(m)]),
       ['bnot'])
 axiom('eqmask.len', forall([s, a], blen(eqmask(s, a)) == alen(s), [eqmask(s, a)]), ['eqmask'])
 axiom('eqmask.at', forall([s, a, i], z3.Implies(z3.And(0 <= i, i < alen(s)), bat(eqmask(s, a), i) == (aat(s, i) == a)), [bat(eqmask(s, a), i)]), ['eqmask'])
